@@ -3,9 +3,13 @@ package checks
 import (
 	"encoding/json"
 	"fmt"
+	"math/big"
 	"strings"
 	"sync"
 	"time"
+
+	g "github.com/zenon-network/go-zenon/chain/genesis/mock"
+	"github.com/zenon-network/go-zenon/common/types"
 
 	"github.com/zenon-network/go-zenon/verifier"
 
@@ -79,6 +83,7 @@ type walkArg struct {
 	Htlc      bool
 	Enforced  bool
 	Stalls    bool
+	Tight     bool // ZNN and QSR maximum supplies just above the genesis supplies: reward mints run into the cap
 }
 
 func init() {
@@ -88,7 +93,7 @@ func init() {
 			return nil, err
 		}
 		node.Quiet()
-		return labWalk(a.Seed, a.Momentums, a.Htlc, a.Enforced, a.Stalls)
+		return labWalk(a.Seed, a.Momentums, a.Htlc, a.Enforced, a.Stalls, a.Tight)
 	})
 }
 
@@ -129,7 +134,7 @@ func labWalks(run *core.Run, args []walkArg) []*walkResult {
 }
 
 // labWalk runs one seeded walk on a fresh producer and returns its projected trace.
-func labWalk(seed int64, momentums int, htlc bool, enforced bool, stalls bool) (*walkResult, error) {
+func labWalk(seed int64, momentums int, htlc bool, enforced bool, stalls bool, tight bool) (*walkResult, error) {
 	walk.LabConstants()
 	if enforced {
 		verifier.ReceiverMismatchEnforcementHeight = 1
@@ -138,7 +143,20 @@ func labWalk(seed int64, momentums int, htlc bool, enforced bool, stalls bool) (
 	}
 	cap := ledger.StartCapture()
 	defer cap.Stop()
-	p, err := node.New(fmt.Sprintf("walk-%d", seed), node.Options{Producer: true})
+	opts := node.Options{Producer: true}
+	if tight {
+		cfg := cloneGenesis(g.EmbeddedGenesis)
+		for _, t := range cfg.TokenConfig.Tokens {
+			if t.TokenStandard == types.ZnnTokenStandard {
+				t.MaxSupply = new(big.Int).Add(t.TotalSupply, big.NewInt(40*100000000))
+			}
+			if t.TokenStandard == types.QsrTokenStandard {
+				t.MaxSupply = new(big.Int).Add(t.TotalSupply, big.NewInt(400*100000000))
+			}
+		}
+		opts.Genesis = cfg
+	}
+	p, err := node.New(fmt.Sprintf("walk-%d", seed), opts)
 	if err != nil {
 		return nil, err
 	}
@@ -169,7 +187,7 @@ func labWalk(seed int64, momentums int, htlc bool, enforced bool, stalls bool) (
 	if err := cap.Project(ids[0], pr); err != nil {
 		return nil, err
 	}
-	name := fmt.Sprintf("lab walk seed=%d momentums=%d htlc=%v enforced=%v stalls=%v", seed, momentums, htlc, enforced, stalls)
+	name := fmt.Sprintf("lab walk seed=%d momentums=%d htlc=%v enforced=%v stalls=%v tight-supply=%v", seed, momentums, htlc, enforced, stalls, tight)
 	return &walkResult{Run: ledgerRun{Name: name, Events: pr.Events, Note: pr.Note}, Drained: drained, Problems: p.Problems, Methods: w.Methods,
 		Stats: fmt.Sprintf("%s: %d blocks submitted, %d refused at send time, %d accepted, %d momentums, %d stalls", name, w.Submitted, w.RejectedAtSend, pr.Blocks, pr.Momentums, w.StallCount)}, nil
 }
@@ -181,6 +199,7 @@ type ledgerFamilyOpts struct {
 	repoPattern string // tests of vm/embedded/tests traced in the quick tier
 	walks       int
 	walkLen     int
+	tight       bool // one more walk with tight ZNN / QSR maximum supplies
 	reorgs      int // reorganisation scenarios (reorg.go)
 	dust        bool // dust-backers scenarios (dust.go)
 	cells       int // batches of CallCells.tla cells (cells.go)
@@ -229,6 +248,9 @@ func ledgerFamily(run *core.Run, o ledgerFamilyOpts) {
 	for i := 0; i < nw; i++ {
 		enforced := i != 1 || (o.prop != "C01" && o.prop != "C04") // C01/C04: one walk in the default (legacy) regime
 		wargs = append(wargs, walkArg{Seed: run.Seed*1000 + int64(i), Momentums: wl, Htlc: i%2 == 0, Enforced: enforced, Stalls: i%4 >= 2})
+	}
+	if o.tight {
+		wargs = append(wargs, walkArg{Seed: run.Seed*1000 + 500, Momentums: wl, Htlc: false, Enforced: true, Tight: true})
 	}
 	for _, wr := range labWalks(run, wargs) {
 		runs = append(runs, wr.Run)
